@@ -51,11 +51,13 @@ def step (st : St) (l : String) : St × String :=
     | .v1 => ({ st with mta := mapInsert kb vb st.mta }, "ok")
   | ["put", s] =>
     if !st.live then (st, "nowriter") else
+    if (unhex s).length ≠ 64 then (st, "bad-op") else      -- Go signatures are [64]byte
     let w := st.w
     let st := { st with w := #[] }
     ({ st with w := put hR w (unhex s) }, "ok")
   | ["whas", s] =>
     if !st.live then (st, "nowriter") else
+    if (unhex s).length ≠ 64 then (st, "bad-op") else
     (st, toString (writerHas hR st.w (unhex s)))
   | ["seal"] =>
     if !st.live then (st, "nowriter") else
@@ -68,6 +70,7 @@ def step (st : St) (l : String) : St × String :=
     match st.sd, st.rdr with
     | some sd, some r =>
       let sig := unhex s
+      if sig.length ≠ 64 then (st, "bad-op") else
       let b := hasB st.file r (prefixOf sig) (hR sig)
       let a := hasA sd (prefixOf sig) (hR sig)
       (st, showRes b ++ (if b = (if a then Res.yes else Res.no) then "" else " MODEL-LAYERS-DISAGREE"))
